@@ -11,6 +11,26 @@ from .history import Hist
 P = ns.BaseProjectStatus
 
 
+class MonNearTie(object):
+    """Witness collector for the TSLACK finding: two waiting tasks whose slack (lst - est) differs by
+    float noise only (0 < |difference| < 1e-9) at some step, so that the order produced by the rule is
+    decided by rounding errors which depend on the absolute time."""
+
+    def __init__(self):
+        self.near_tie = False
+
+    def on_phase(self, tr, project, phase, snap):
+        if phase != "updated" or self.near_tie:
+            return
+        ks = [t.lst - t.est for t, s in snap.tstate.items() if s in (M.TS.READY, M.TS.WORKING) and not t.auto_task]
+        for i in range(len(ks)):
+            for j in range(i + 1, len(ks)):
+                d = abs(ks[i] - ks[j])
+                if 0.0 < d < 1e-9:
+                    self.near_tie = True
+                    return
+
+
 def absence_list(rng):
     base = set(rng.sample(range(0, 14), rng.randint(1, 4)))
     r = rng.random()
@@ -63,8 +83,10 @@ def run_case(case):
     I.set_order(I.default_order(spec))
     base = B.build(spec)
     e = None
+    nt0 = MonNearTie()
     try:
-        B.run(base.project, spec)
+        with I.tracing(I.Tracer([nt0])):
+            B.run(base.project, spec)
     except Exception as ex:
         e = exc_info(ex)
     if e is not None:
@@ -80,7 +102,8 @@ def run_case(case):
     I.set_order(I.default_order(spec))
     m2 = B.build(s2)
     # count absence steps with a WORKING task (non-triviality) with the in-step monitor attached
-    tr = I.Tracer([M.MonC10()])
+    nt1 = MonNearTie()
+    tr = I.Tracer([M.MonC10(), nt1])
     ready_logged_at_absence = False
     try:
         with I.tracing(tr):
@@ -110,6 +133,8 @@ def run_case(case):
         if spec["sim"]["rule"] == int(ns.TaskPriorityRuleMode.FIFO) and ready_logged_at_absence:
             # the FIFO key counts READY entries of the log, which include project absence steps
             mech += ":FIFO-key-counts-READY-entries-logged-at-absence-steps"
+        elif spec["sim"]["rule"] == int(ns.TaskPriorityRuleMode.TSLACK) and (nt0.near_tie or nt1.near_tie):
+            mech += ":TSLACK-near-tie-decided-by-float-rounding"
         elif owner.startswith("WP:") and path.split("/")[2] == "p":
             mech += ":workplace-content-log-not-edited"
         elif beyond and (owner in ("time",) or "len" in path):
